@@ -8,8 +8,14 @@ corr(): translator validation (every generated def on Float vs the Python functi
 conversions / rotations / Cramer inverse / fixed invert4rankTensor on random input vs the hand model,
 moduliToC branch priority vs the model, the Eshelby energy (Ellipsoid and Bohm) of the model on the
 code's own quadrature nodes vs the real methods, setter op sequences on the real StrainEnergy vs the
-state-machine model (final tensors, description, energy compared).  Direct oracle: the C16
-predicates on the real code (see MONITORED)."""
+state-machine model (final tensors, description, energy compared), histories of ONE object (setters in
+every input form, description-level settings, compute / energy-variant / aspect-ratio calls in between)
+vs the history model `KawinV.Elastic.hrun` (every compute result compared).  Direct oracle: the C16
+predicates on the real code (see MONITORED), among them fresh-object equivalence (part F: every
+observation in a random history equals that of a newly constructed object given the settings in force
+only; failing histories are delta-debugged and stored as replayable call lists) and input-form
+equivalence (part G: the same tensor as 6x6 / 3x3x3x3 / nested lists / property assignment / elastic
+constants / moduli pairs gives the same stored tensor, parameters and energies)."""
 import itertools, math, os, sys, traceback
 import numpy as np
 import vlib
@@ -17,7 +23,7 @@ from vlib import Result, enc_list, f2b, Toks, close
 
 PROP = 'C16'
 META = {
-    'level_text': 'Lean 4 theorems about definitions REGENERATED on every run from ElasticFactors.py by a concolic tracer (all 15 input-pair branches of moduliToC, Khachaturyan sphere/cube, constant description, Cramer 3x3 inverse, _beta, _n) and about a hand model (KawinV.Elastic) of the tensor-rank conversions, rotations, the repaired invert4rankTensor, the Eshelby energy skeleton (sphInt/Dijkl/Sijmn/Ellipsoid/Bohm over an arbitrary node list) and the StrainEnergy setter state machine with update() as coded after the repairs: rank conversions round-trip (every 6x6; every 4th-rank tensor with the minor symmetries), rotation keeps the minor symmetries, Cramer inverse is a two-sided inverse and the only one when det != 0, every moduliToC branch returns the compliance of the textbook (E, nu, G) for consistent input (sqrt branches under explicit sign hypotheses; the E-M branch is proved to return the OTHER root for negative nu), compliance x stiffness = 1, Khachaturyan on isotropic constants = 2G(1+nu)/(1-nu) eps^2 V, size scaling E(s r) = s^3 E(r) and eigenstrain scaling E(c eps) = c^2 E(eps) for Khachaturyan, constant, Ellipsoid and Bohm, homogeneous inclusion Bohm = Ellipsoid, the repaired invert4rankTensor is the inverse on minor-symmetric tensors (and the unweighted one is not: witness), the final parameters of any setter sequence are a function of the final (rotation, rotationPrec, stiffnesses, applied stress) only (false of the code before commit 187e553: witness), and in a family of live objects an interleaved call sequence leaves every object in the state its own calls alone produce (runFam_independent; negative witness fillDiagonal_leaks for an in-place write into the class-level array that StrainEnergyParameters shares between objects).',
+    'level_text': 'Lean 4 theorems about definitions REGENERATED on every run from ElasticFactors.py by a concolic tracer (all 15 input-pair branches of moduliToC, Khachaturyan sphere/cube, constant description, Cramer 3x3 inverse, _beta, _n) and about a hand model (KawinV.Elastic) of the tensor-rank conversions, rotations, the repaired invert4rankTensor, the Eshelby energy skeleton (sphInt/Dijkl/Sijmn/Ellipsoid/Bohm over an arbitrary node list) and the StrainEnergy setter state machine with update() as coded after the repairs: rank conversions round-trip (every 6x6; every 4th-rank tensor with the minor symmetries), rotation keeps the minor symmetries, Cramer inverse is a two-sided inverse and the only one when det != 0, every moduliToC branch returns the compliance of the textbook (E, nu, G) for consistent input (sqrt branches under explicit sign hypotheses; the E-M branch is proved to return the OTHER root for negative nu), compliance x stiffness = 1, Khachaturyan on isotropic constants = 2G(1+nu)/(1-nu) eps^2 V, size scaling E(s r) = s^3 E(r) and eigenstrain scaling E(c eps) = c^2 E(eps) for Khachaturyan, constant, Ellipsoid and Bohm, homogeneous inclusion Bohm = Ellipsoid, the repaired invert4rankTensor is the inverse on minor-symmetric tensors (and the unweighted one is not: witness), the final parameters of any setter sequence are a function of the final (rotation, rotationPrec, stiffnesses, applied stress) only (false of the code before commit 187e553: witness), and in a family of live objects an interleaved call sequence leaves every object in the state its own calls alone produce (runFam_independent; negative witness fillDiagonal_leaks for an in-place write into the class-level array that StrainEnergyParameters shares between objects); history purity of one object: in the history model (setters, quadrature setters, compute calls interleaved; KawinV.Elastic.hrun, tied to the code by correspondence on every compute result) two histories that end with the same settings answer compute(r) identically, so a used object equals a fresh one given the final settings (history_fresh_equiv); for an object that keeps a memo table of a kernel (abstract: settings, kernel inputs, key, kernel; KawinV.Elastic.Memo) every result equals that of an object without a table provided every setter that changes a kernel input empties the table and equal keys mean equal kernel values (memo_sound, memo_fresh_equiv; instance for Dijkl inside StrainEnergy: eshelby_memo_sound, only the eigenstrain setters may skip the clearing: eig_setters_keep_kernel_input), and a table keyed by the radii alone that a stiffness setter does not empty returns the stale value (memo_stale_witness, memo_stale_witness_unsound).',
     'level_note': 'MONITORED only (oracle on the real code, not proved): energy >= 0 for positive-definite stiffness; rotation invariance; textbook Eshelby tensor components of the isotropic sphere; Lebedev exactness on monomials up to the stated order on every table; agreement of the 6x6 and 4th-rank energy variants and of the two 3x3 inversion routines; Bohm against an independent 9x9 reference. The Lebedev tables produced by loadPoints are NOT exact (finding lebedev-inexact-order*): analytic clauses that depend on the quadrature are evaluated twice, with the code\'s own nodes (failures carry the finding key) and with an independent Gauss-Legendre x trapezoid rule injected into the real description (must pass). Trusted: Lean kernel + Mathlib, axioms propext/Classical.choice/Quot.sound; tools/py2lean/sym.py (validated numerically on every run); the hand model equals the NumPy code as far as this run compared them; np.linalg.inv is modelled as "an inverse" (abstract in the theorems, Gauss-Jordan in the driver); exact-field arithmetic instead of IEEE doubles; sqrt/sin/cos are atoms with the laws used stated as hypotheses and discharged for the real numbers.',
     'technique': 'Lean 4 proof over generated definitions (py2lean) + hand model/state machine + differential correspondence + analytic oracle',
     'design_ref': 'DESIGN.md section 6, C16',
@@ -30,6 +36,8 @@ MONITORED = [
     'Lebedev tables integrate all monomials x^a y^b z^c up to the stated order (53/83/131) to 1e-11',
     '6x6 and 4th-rank energy variants agree; quick (Cramer) and numpy 3x3 inversion agree; Bohm agrees with an independent 9x9 pseudo-inverse reference',
     'isotropic sphere: Ellipsoid/Bohm/Khachaturyan energy = 2G(1+nu)/(1-nu) eps^2 V',
+    'history purity on the real code: random call sequences on ONE StrainEnergy object (all setters in all input forms incl. property assignment and setShape by name / instance, setLebedevIntegration / setIntegrationIntervals / setOhmInverseFunction on the description, setAspectRatioResolution / setInterfacialEnergyMethod / clearCache, mixed with compute on one or several radii triples, the five energy variants, eqAR_bySearch / eqAR_byGR at repeated and varying aspect ratios): every observation equals that of a freshly constructed object given only the settings in force; the description kind follows the calls (finding history:eqAR_bySearch:stale-aspect-ratio-table: the aspect-ratio table of eqAR_bySearch is never invalidated)',
+    'input-form equivalence on the real code: the same matrix / precipitate stiffness as 6x6, 3x3x3x3, nested lists, property assignment, elastic constants, three random moduli pairs (precipitate different from the matrix, with and without rotations, either side first) and the same eigenstrain / applied stress as scalar, 3-vector, matrix: stored tensor = the supplied tensor (expanded independently), same parameters, same energies',
     'object independence on the real code: several live StrainEnergy objects configured in interleaved order, each read after all were configured, equal a fresh single object given the same calls and hold the eigenstrain supplied to them; eps^2 / s^3 scaling and the closed form evaluated across objects',
 ]
 ASSUMPTIONS = [
@@ -1544,11 +1552,13 @@ def shrink_history(EF, shape, hops, key, budget=160):
         return any(x['key'] == key for x in f)
     trials = 0
     n = 2
+    pin = any(h[0] == 'eqAR' and h[1] == 'search' for h in hops)
     while len(hops) >= 2 and trials < budget:
         chunk = max(1, len(hops) // n)
         reduced = False
         for s in range(0, len(hops), chunk):
-            cand = hops[:s] + [h for h in hops[s:s + chunk] if h[0] == 'arRes'] + hops[s + chunk:]       # (the table size stays: cost)
+            # (histories that search the aspect-ratio table keep their table-size calls: a removed one means the 500-entry default)
+            cand = hops[:s] + [h for h in hops[s:s + chunk] if h[0] == 'arRes' and pin] + hops[s + chunk:]
             if len(cand) == len(hops):
                 continue
             trials += 1
@@ -1581,7 +1591,7 @@ def gen_history(r, EF, nmax):
     if r.random() < 0.5:
         pool.append(r.uniform(0.4, 2.5, 3))
     sizes = [a0, 2.5 * a0]
-    peq = 0.08 if r.random() < 0.15 else 0.0        # some histories ask for the equilibrium aspect ratio repeatedly
+    peq = 0.08 if r.random() < 0.25 else 0.0        # some histories ask for the equilibrium aspect ratio repeatedly
 
     def radii():
         p = pool[int(r.integers(0, len(pool)))]
@@ -1903,7 +1913,9 @@ def corr(ctx, oracle_only=False, scale=1):
     res.rule = ('generated defs: every moduliToC pair x random consistent / perturbed moduli, random cubic / isotropic constants, random 3x3 matrices, angles; '
                 'tensors: random 6x6, 3x3x3x3 (with and without minor symmetry), rotations (orthogonal and not); energies: stiffness kind (iso pair, iso hom., cubic hom., cubic pair) x '
                 'eigenstrain kind (dilatation, diagonal, full symmetric) x shape (sphere, prolate, oblate, triaxial) x quadrature order x rotation; setter sequences: random ops '
-                '(18 kinds) on all four initial shapes; order pairs: the same items supplied in two random orders. non-trivial = non-degenerate input (sequence of >= 3 ops); distinct = (kind tuple, index)')
+                '(18 kinds) on all four initial shapes; order pairs: the same items supplied in two random orders; histories of one object: 3..22 (thorough 60) calls, 40 % observations '
+                '(compute on a pool of 3-4 aspect ratios x 2 sizes + random sizes, several radii at once, five energy variants, eqAR searches, a quarter of the histories repeat the same search), 60 % setters '
+                '(the 18 kinds, property assignment, setShape by name/instance, quadrature, inverse routine, aspect-ratio table settings); input forms: 6-10 forms per tensor x side x tensor kind (cubic, isotropic, rotated cubic). non-trivial = non-degenerate input (sequence of >= 3 ops); distinct = (kind tuple, index)')
     res.monitored = list(MONITORED)
     EF, LN = load()
     fast_points(EF, LN)
